@@ -1,5 +1,5 @@
 (* Properties/C06.v — every operation yields one distinct client method, request type and module. *)
-From LN Require Import Model.Extractor Proofs.NormP Proofs.ExtractP.
+From LN Require Import Model.Extractor Proofs.NormP Proofs.ExtractP Proofs.NamesP.
 
 (* every mangling step preserves the case-folded alphanumeric skeleton of a name ... *)
 Theorem C06_norm_pascal : forall s, norm (pascal s) = norm s.
@@ -61,3 +61,12 @@ Theorem C06_nonvacuous :
   op_name_of_id (lit "users.list") = lit "UsersList" /\ op_file_name (lit "UsersList") = lit "users_list".
 Proof. vm_compute. repeat split; try reflexivity. discriminate. Qed.
 Print Assumptions C06_nonvacuous.
+
+(* the request struct and the required-arguments struct: distinct operation names give distinct struct names, and no
+   `…Request` name of one operation equals the `…Required` name of another (or of itself) *)
+Theorem C06_struct_names : forall a b,
+  (request_struct_name a = request_struct_name b -> a = b) /\
+  (required_struct_name a = required_struct_name b -> a = b) /\
+  request_struct_name a <> required_struct_name b.
+Proof. intros a b. exact (conj (request_struct_name_inj a b) (conj (required_struct_name_inj a b) (request_required_disjoint a b))). Qed.
+Print Assumptions C06_struct_names.
